@@ -43,6 +43,7 @@ const (
 	tListInt
 	tListListK
 	tProof // an IPAProof value: (L, R, A_scalar)
+	tBig   // a big.Int holding the regular (non-Montgomery) integer value of a field element
 )
 
 func (t lty) lean() string {
@@ -71,6 +72,8 @@ func (t lty) lean() string {
 		return "List (List K)"
 	case tProof:
 		return "(List G × List G × K)"
+	case tBig:
+		return "Nat"
 	}
 	return "?"
 }
@@ -81,7 +84,7 @@ func (t lty) zero() string {
 		return "0"
 	case tListK, tListBool, tListG, tListInt, tListListK:
 		return "[]"
-	case tInt:
+	case tInt, tBig:
 		return "0"
 	case tBool:
 		return "false"
@@ -120,6 +123,7 @@ const protoArgs = "enc bvec multiScalar"
 
 // further abstract parameters of single functions
 var extraParams = map[string]string{
+	"computeBVector": "(val : K → Nat) (wBary wInvDom : List K)",
 	"CreateMultiProof": "(normalize : List G → Option (List G)) (commitFn : List K → G) (groupFn : List (List K) → List K → List Int → List (List K)) (wBary wInvDom : List K)",
 }
 
@@ -135,6 +139,7 @@ type loopTr struct {
 	optLoop int // nesting depth of loops that can be left by an error return
 	labelPrefix string
 	preVars map[string]lty // variables in scope at function entry besides the parameters
+	globals map[string]lty // package-level variables emitted as Lean definitions
 	curIV   string         // innermost loop variable
 	recv    func(iv string) string // translation of a channel receive inside the loop over `iv`
 	recvTy  lty
@@ -164,6 +169,8 @@ func goType(e ast.Expr) (lty, bool) {
 		return tListListK, true
 	case "*common.Transcript":
 		return tTr, true
+	case "big.Int":
+		return tBig, true
 	}
 	return 0, false
 }
@@ -263,6 +270,9 @@ func (t *loopTr) typeOf(e ast.Expr) lty {
 		if strings.HasSuffix(fn, ".Commit") && len(x.Args) == 1 {
 			return tG
 		}
+		if strings.HasSuffix(fn, ".PrecomputedWeights.ComputeBarycentricCoefficients") {
+			return tListK
+		}
 		if sel, ok := x.Fun.(*ast.SelectorExpr); ok && (sel.Sel.Name == "IsZero" || sel.Sel.Name == "Equal") {
 			return tBool
 		}
@@ -331,6 +341,11 @@ func (t *loopTr) intExpr(e ast.Expr) string {
 		case "len":
 			return "(((" + t.valExpr(x.Args[0]) + ").length : Nat) : Int)"
 		}
+		if sel, ok := x.Fun.(*ast.SelectorExpr); ok && sel.Sel.Name == "Uint64" && len(x.Args) == 0 {
+			if id, ok := sel.X.(*ast.Ident); ok && t.vars[id.Name] == tBig {
+				return "(((" + id.Name + " % 18446744073709551616 : Nat)) : Int)"
+			}
+		}
 		if f := t.lookupFn(exprStr(x.Fun)); f != nil && len(f.results) == 1 && f.results[0] == tInt {
 			return t.callExpr(x)
 		}
@@ -365,6 +380,12 @@ func (t *loopTr) condExpr(e ast.Expr) string {
 				return "(" + t.valExpr(x.X) + " " + op + " [])"
 			}
 			die("loops: %s: comparison of a non-slice with nil", t.cur.name)
+		}
+		if c, ok := x.X.(*ast.CallExpr); ok && op != "" && exprStr(x.Y) == "0" {
+			// `a.Cmp(&b) OP 0` on field elements compares their regular integer values
+			if sel, ok := c.Fun.(*ast.SelectorExpr); ok && sel.Sel.Name == "Cmp" && len(c.Args) == 1 && t.typeOf(sel.X) == tK && t.typeOf(c.Args[0]) == tK {
+				return "(val " + t.valExpr(sel.X) + " " + op + " val " + t.valExpr(c.Args[0]) + ")"
+			}
 		}
 		if op != "" {
 			return "(" + t.intExpr(x.X) + " " + op + " " + t.intExpr(x.Y) + ")"
@@ -565,6 +586,12 @@ func (t *loopTr) valExpr(e ast.Expr) string {
 			return "(" + d.name + " wBary wInvDom " + t.intExpr(x.Args[0]) + " " + t.valExpr(x.Args[1]) + ")"
 		} else if strings.HasSuffix(fn, ".Commit") && len(x.Args) == 1 {
 			return "(commitFn " + t.valExpr(x.Args[0]) + ")"
+		} else if strings.HasSuffix(fn, ".PrecomputedWeights.ComputeBarycentricCoefficients") && len(x.Args) == 1 {
+			d := t.lookupFn("ComputeBarycentricCoefficients")
+			if d == nil {
+				die("loops: ComputeBarycentricCoefficients used before it is translated")
+			}
+			return "(" + d.name + " wBary wInvDom " + t.valExpr(x.Args[0]) + ")"
 		}
 		if sel, ok := x.Fun.(*ast.SelectorExpr); ok && (sel.Sel.Name == "IsZero" || sel.Sel.Name == "Equal") {
 			return "(decide " + t.condExpr(e) + ")"
@@ -973,6 +1000,10 @@ func (t *loopTr) block(ind string, stmts []ast.Stmt, k string, cont string) {
 				}
 				continue
 			}
+			if sel.Sel.Name == "ToBigIntRegular" && len(c.Args) == 1 && t.typeOf(sel.X) == tK && t.typeOf(c.Args[0]) == tBig {
+				t.assign(ind, c.Args[0], "val "+t.valExpr(sel.X), false, tBig)
+				continue
+			}
 			ar, ok := fieldMethods[sel.Sel.Name]
 			if !ok || ar != len(c.Args) {
 				die("loops: %s: unsupported method %s/%d", t.cur.name, sel.Sel.Name, len(c.Args))
@@ -1322,6 +1353,9 @@ func (t *loopTr) fnDecl(fd *ast.FuncDecl, goName string, leanName string, proto 
 	for k, v := range t.preVars {
 		t.vars[k] = v
 	}
+	for k, v := range t.globals {
+		t.vars[k] = v
+	}
 	if fd.Recv != nil && len(fd.Recv.List) == 1 && len(fd.Recv.List[0].Names) == 1 {
 		rt := exprStr(fd.Recv.List[0].Type)
 		if rt != "*PrecomputedWeights" {
@@ -1486,6 +1520,43 @@ func translateLoops(repo string, write func(name, imports, content string)) {
 		t.labels[l] = true
 	}
 	t.sb.WriteString("\nsection\nvariable {K G : Type} [Zero K] [One K] [Add K] [Sub K] [Mul K] [Neg K] [Inv K] [NatCast K] [DecidableEq K]\nvariable [Zero G] [Add G] [SMul K G]\n\n")
+	// the package variable `maxEvalPointInsideDomain` and its only assignment, in `init()`
+	{
+		initFn := findFunc(prover, "init")
+		if initFn == nil || len(initFn.Body.List) != 1 {
+			die("loops: ipa/prover.go: init() is not the single assignment of maxEvalPointInsideDomain")
+		}
+		es, ok := initFn.Body.List[0].(*ast.ExprStmt)
+		if !ok {
+			die("loops: ipa/prover.go: unexpected statement in init()")
+		}
+		call, ok := es.X.(*ast.CallExpr)
+		if !ok || exprStr(call.Fun) != "maxEvalPointInsideDomain.SetUint64" || len(call.Args) != 1 {
+			die("loops: ipa/prover.go: init() does not set maxEvalPointInsideDomain with SetUint64")
+		}
+		nAssign := 0
+		ast.Inspect(prover, func(n ast.Node) bool {
+			if sel, ok := n.(*ast.SelectorExpr); ok && exprStr(sel.X) == "maxEvalPointInsideDomain" {
+				nAssign++
+			}
+			if u, ok := n.(*ast.UnaryExpr); ok && u.Op == token.AND && exprStr(u.X) == "maxEvalPointInsideDomain" {
+				if nAssign >= 0 {
+					nAssign += 100
+				}
+			}
+			return true
+		})
+		if nAssign != 101 {
+			die("loops: ipa/prover.go: maxEvalPointInsideDomain is used other than by its init() assignment and one read by address (%d)", nAssign)
+		}
+		t.cur = &loopFn{name: "maxEvalPointInsideDomain"}
+		t.vars = map[string]lty{}
+		t.consts["VectorLength"] = lit.Value
+		t.sb.WriteString("/-- `maxEvalPointInsideDomain`, set once in `init()` -/\ndef maxEvalPointInsideDomain : K := (((" + t.intExpr(call.Args[0]) + ").toNat : Nat) : K)\n\n")
+		t.globals = map[string]lty{"maxEvalPointInsideDomain": tK}
+	}
+	t.fn(prover, "computeBVector", "computeBVector", false)
+	t.globals = nil
 	t.fn(cfg, "commit", "commit", true)
 	t.fn(verifier, "generateChallenges", "generateChallenges", true)
 	t.fn(prover, "CreateIPAProof", "createIPAProof", true)
